@@ -151,3 +151,34 @@ Theorem C20_body_is_query_document : forall b,
   end.
 Proof. exact prepare_body_spec. Qed.
 Print Assumptions C20_body_is_query_document.
+
+(* ---- access histories on one operation object: the arguments follow the CURRENT configuration ------ *)
+(* whatever happened before (draws, reconfigurations, registrations), a draw calls the factory with the generation
+   config of that moment (the per-call one if given) and the scalar table of that moment *)
+Theorem C20_strategy_args_follow_current_config : forall extra o st h pc,
+  run_events extra o st (h ++ [EDraw pc]) = run_events extra o st h ++ [draw_call extra o (state_after st h) pc].
+Proof. exact args_follow_current_config. Qed.
+Print Assumptions C20_strategy_args_follow_current_config.
+
+(* earlier draws leave no trace: removing every earlier draw from the history does not change the call *)
+Theorem C20_draws_do_not_stick : forall extra o st h pc,
+  draw_call extra o (state_after st h) pc =
+  draw_call extra o (state_after st (filter (fun e => negb (is_draw e)) h)) pc.
+Proof. exact draws_do_not_stick. Qed.
+Print Assumptions C20_draws_do_not_stick.
+
+(* after schema.configure(generation=c) the next draw uses c (or its own per-call config), whatever was used before *)
+Theorem C20_config_is_latest : forall extra o st h c pc,
+  let call := fst (draw_call extra o (state_after st (h ++ [EConfigure c])) pc) in
+  let eff := match pc with Some c' => c' | None => c end in
+  sc_allow_x00 call = g_allow_x00 eff /\ sc_allow_null call = g_allow_null eff /\ sc_codec call = g_codec eff.
+Proof. exact config_is_latest. Qed.
+Print Assumptions C20_config_is_latest.
+
+(* every call of every history targets the operation's own root type and field *)
+Theorem C20_history_calls_target_field : forall c extra o h st,
+  In o (root_fields c) ->
+  Forall (fun call => hg_accepts c (fst call) = true /\ hg_target c (fst call) = Some (o_type o, [o_field o]))
+         (run_events extra o st h).
+Proof. exact history_calls_target. Qed.
+Print Assumptions C20_history_calls_target_field.
